@@ -397,6 +397,7 @@ impl<K: BaseKey> DynOwner for Owner<K> {
         if first.is_some() && !pred.causes.is_empty() {
             // the first build already failed the same way; nothing more to learn
             pred.judged = false;
+            pred.why_unjudged = "builder reused after a first build that fails the same way";
         }
         let real = build_real::<Faulty<K>>(calls, &self.keys[i].1, first.map(|r| &self.keys[r].1));
         Self::flush_panics(cx, "Builder");
@@ -457,7 +458,7 @@ impl<K: BaseKey> DynOwner for Owner<K> {
                         }
                     }
                 } else {
-                    cx.stat("unjudged:build");
+                    cx.stat(&format!("unjudged:build:{}", pred.why_unjudged));
                 }
                 // C14: what the typed builder methods stored reads back as the value set (the last
                 // writer of each key counts)
